@@ -59,6 +59,7 @@ m('c03-loop-room-off-by-one', ['C03'], 'policy.go', "	for ; room < 0; room = p.e
 m('c04-no-onexit-after-update', ['C04'], 'cache.go', """		verifYield(verifSiteSetDetached, keyHash)
 		c.onExit(prev)
 """, """		verifYield(verifSiteSetDetached, keyHash)
+		_ = prev
 """)
 m('c04-clear-drain-evicts-updates', ['C04'], 'cache.go', """			if i.flag != itemUpdate {
 				// In itemUpdate, the value is already set in the storedItems.  So, no need to call
@@ -214,7 +215,7 @@ m('c17-drop-counted-for-updates', ['C17'], 'cache.go', """		if i.flag == itemUpd
 		}""")
 m('c17-full-cost-on-overwrite', ['C17'], 'policy.go', """			p.metrics.add(costAdd, key, uint64(diff))
 		}
-		p.used += cost - prev""", """			p.metrics.add(costAdd, key, uint64(cost))
+		p.used += cost - prev""", """			p.metrics.add(costAdd, key, uint64(cost)+uint64(diff-diff))
 		}
 		p.used += cost - prev""")
 m('c17-hits-in-getttl', ['C17'], 'cache.go', """	if _, ok := c.storedItems.Get(keyHash, conflictHash); !ok {
